@@ -162,3 +162,95 @@ class TraceTask:
         for r in eng.results.values():
             r.witness, r.replayed = None, False
         return eng
+
+
+# =============================================================================================
+# loops over an abstract sequence whose only cross-iteration effect is the effect trace
+# =============================================================================================
+
+class AbstractSeq:
+    """a sequence of symbolic length whose elements are produced by `element(I, k)` (which may fork the path, e.g. over the
+    finite set of operation classes)"""
+
+    def __init__(self, length, element, label="seq"):
+        self.length = length
+        self.element = element
+        self.label = label
+
+
+class ForEach:
+    """marker event: for every element of `seq`, in order, the events `template(elem)`"""
+
+    def __init__(self, seq, tag):
+        self.seq = seq
+        self.tag = tag
+
+
+def trace_loop_hook(expected, locals_=(), post_iter=None, tag="foreach", pure=()):
+    """Rule for `for x in <AbstractSeq>: body` where the body communicates with the rest of the function only through the
+    effect trace and through heap objects it hands to recorded callees:
+       - the body, run on an ARBITRARY element (fresh symbols; finite case splits fork the path), must record exactly
+         expected(I, elem) (obligations via a Cursor) and satisfy post_iter (e.g. temporaries restored);
+       - variables assigned by the body must be declared iteration-local and must not be read after the loop;
+       - then the whole loop records ForEach(seq): by induction on the length of the sequence, no unrolling."""
+    import ast as _ast
+    from .loops import assigned_names
+
+    def hook(interp, node, it):
+        if not isinstance(it, AbstractSeq):
+            return False
+        path = interp.path
+        fr = interp.stack[-1]
+        lab = f"{fr.func_name}:foreach({_ast.unparse(node.target)})"
+        written = assigned_names(node.body) | assigned_names([_ast.Expr(value=node.target)]) | {
+            n.id for n in _ast.walk(node.target) if isinstance(n, _ast.Name)}
+        extra = written - set(locals_) - {n.id for n in _ast.walk(node.target) if isinstance(n, _ast.Name)}
+        path.engine.record(f"{lab}.frame.vars", "discharged" if not extra else "refuted", 0,
+                           "" if not extra else f"loop body assigns {sorted(extra)}, not declared iteration-local", None)
+        if extra:
+            raise PathEnd()
+        saved_trace = path.trace
+        saved_pc = len(path.pc)
+        saved_env = dict(fr.env)
+        k = path.fresh("it")
+        path.assume(z3.And(k >= 0, k < to_z3(it.length)))
+        elem = it.element(interp, k)
+        interp.assign(node.target, elem)
+        path.trace = []
+        try:
+            interp.exec_block(node.body)
+        except Exception as e:
+            from .interp import BreakEx, ContinueEx, ReturnEx
+
+            if isinstance(e, ContinueEx):
+                pass
+            elif isinstance(e, (BreakEx, ReturnEx)):
+                raise Undecided("break/return inside a trace loop")
+            elif isinstance(e, RaiseEx):
+                exp = expected(interp, elem)
+                ok = isinstance(exp, tuple) and exp and exp[0] == "raises" and e.exc_name in exp[1]
+                path.engine.record(f"{lab}.no-raise", "discharged" if ok else "refuted", 0,
+                                   "" if ok else f"loop body raises {e.exc_name}: {e.msg} for an element the contract accepts", None)
+                raise PathEnd()
+            else:
+                raise
+        exp = expected(interp, elem)
+        if isinstance(exp, tuple) and exp and exp[0] == "raises":
+            path.engine.record(f"{lab}.no-raise", "refuted", 0, f"contract says the body must raise {exp[1]} for this element", None)
+            raise PathEnd()
+        path.trace[:] = [e_ for e_ in path.trace if e_["name"] not in pure]  # pure reads are not effects
+        cur = Cursor(interp, lab, path.trace)
+        for name, args in exp:
+            cur.expect(name, *args)
+        cur.done()
+        if post_iter is not None:
+            post_iter(interp, elem, lab)
+        # leave the arbitrary iteration
+        del path.pc[saved_pc:]
+        fr.env.clear()
+        fr.env.update({k_: v for k_, v in saved_env.items()})
+        path.trace = saved_trace
+        path.trace.append({"name": tag, "args": [it], "self": None, "ret": None})
+        return True
+
+    return hook
